@@ -454,6 +454,51 @@ def main(argv):
                              "piece_hex": hexs(bad[0]) if bad else ""})
                 break
 
+    # ---- foldfilter on ILL-FORMED lines of every length relative to the width (shorter, width-1, width, width+1, longer;
+    #      bad byte first / middle / last; default width too): it may stop with a diagnosed failure, but no ill-formed
+    #      piece may reach the child and no ill-formed line may reach stdout
+    ff_cases = []
+    for width in (None, 5, 10, 16):
+        wv = 80 if width is None else width
+        for ln in sorted(set([1, 2, 3, wv - 2, wv - 1, wv, wv + 1, wv + 5, 2 * wv + 3])):
+            if ln < 1:
+                continue
+            for bad in (b"\xff", b"\xc0\xaf", b"\xed\xa0\x80", b"\xe2\x82", b"\x80"):
+                if len(bad) > ln:
+                    continue
+                for where in ("first", "middle", "last"):
+                    fill = ln - len(bad)
+                    k = 0 if where == "first" else (fill // 2 if where == "middle" else fill)
+                    body = (b"abcdefghij" * 20)
+                    ff_cases.append((width, body[:k] + bad + body[k:fill]))
+    if c.tier == "quick":
+        ff_cases = [x for i, x in enumerate(ff_cases) if i % 3 == 0 or len(x[1]) <= 12]
+    for width, badline in ff_cases:
+        seen_path = os.path.join(SCRATCH, "pieces_bad")
+        os.makedirs(SCRATCH, exist_ok=True)
+        if os.path.exists(seen_path):
+            os.unlink(seen_path)
+        data = b"fine line\n" + badline + b"\n" + b"fine again\n"
+        args = ([] if width is None else ["-w", str(width)]) + (["-s"] if (len(badline) + len(data)) % 4 == 0 else [])
+        st, so, se = run_tool([repo_bin("foldfilter")] + args + ["tee", seen_path], stdin=data, timeout=60)
+        wv = 80 if width is None else width
+        rel = "shorter" if len(badline) < wv else ("equal" if len(badline) == wv else "longer")
+        c.count(("foldfilter-bad", width, badline), bucket="tool/foldfilter-ill-formed-line/" + rel + "-than-width")
+        c.cov["traces_validated_against_impl"] += 1
+        pieces = open(seen_path, "rb").read().split(b"\n") if os.path.exists(seen_path) else []
+        bad_p = [p_ for p_ in pieces if not py_is_utf8(p_)]
+        bad_o = [l_ for l_ in so.split(b"\n") if not py_is_utf8(l_)]
+        if st == "timeout":
+            c.violation("tool/foldfilter-hang: foldfilter %s hung on the ill-formed %d-byte line %r" % (" ".join(args), len(badline), badline),
+                        {"op": "foldfilter", "kind": "hang", "args": args + ["tee", "<file>"], "stdin_hex": hexs(data)})
+        elif bad_p or bad_o:
+            c.violation("tool/foldfilter-ill-formed-forwarded: foldfilter %s forwarded the ill-formed %d-byte line %r (%s than the width %d) to %s instead of stopping (status %s)" % (
+                " ".join(args), len(badline), badline, rel, wv, "its child" if bad_p else "stdout", st),
+                {"op": "foldfilter", "kind": "ill-formed-forwarded", "args": args + ["tee", "<file>"], "stdin_hex": hexs(data),
+                 "piece_hex": hexs(bad_p[0]) if bad_p else "", "stdout_hex": hexs(so[:2000]), "status": str(st),
+                 "how": "printf '<stdin>' | bin/foldfilter %s tee /tmp/pieces | xxd" % " ".join(args)})
+            break
+
     # ASan/UBSan build of the harness: buffers are exact-size heap blocks, so any read past `end` is reported
     asan_lines(c, "hx_utf8", lines if c.tier == "thorough" else lines[:70000] + lines[-3000:], "(exact-size heap buffers)")
 
@@ -462,7 +507,7 @@ def main(argv):
                     rule="DecodeUTF8: every buffer of exactly 1, 2 and 3 bytes natively (2^8+2^16+2^24) and every 4-byte buffer with lead F0..F7 (quick) / all 2^32 (thorough) "
                          "against the model's 65,536-row pair table composed with the trail tests (theorem C12_window_composite), plus model-vs-implementation on all 1/2-byte buffers, "
                          "all (b0,b1) x boundary classes of (b2,b3), every truncation of boundary code points with following bytes, random buffers; IsUTF8/iterator: compositions of "
-                         "boundary sequences with one ill-formed piece or cut; tool: remove_invalid_utf8 on generated files incl. CR, NUL, empty lines, missing final newline. "
+                         "boundary sequences with one ill-formed piece or cut; tool: remove_invalid_utf8 on generated files incl. CR, NUL, empty lines, missing final newline; commoncrawl_dedupe output; foldfilter pieces for well-formed lines and ill-formed lines shorter/equal/longer than the width. "
                          "Oracle: Python strict UTF-8 decoder. distinct = distinct non-empty inputs (sweep windows counted in evaluations only)",
                     assumptions=["bytes are Z in [0,256); char is signed (x86-64 g++), modelled by signed_char",
                                  "NotUTF8Exception = rejection; DecodeUTF8 is only called with a non-empty buffer (the iterator guarantees it)",
